@@ -20,9 +20,11 @@ A program = dict(body=[s..], trail=k) (k trailing spaces after the last newline)
   leaves : [start_line, start_col, end_line, end_col, pscope, isParamName, role, arg, name]
            role: 0 other, 1 newline, 2 endmarker, 3 use, 4 bind, 5 param, 6 defName (arg = scope)
            pscope = what jedi's `parent_scope(leaf)` (inference/context.py) returns, as a scope index
-  scopes : [kind, pscope, start(l,c), colon(l,c), suite(l,c), stop(l,c), nameLeaf, name]
+  scopes : [kind, pscope, start(l,c), colon(l,c), suite(l,c), stop(l,c), nameLeaf, name, stmt(l,c)]
            kind as gen.scopes.KINDS; start = node.start_pos (`def`/`class`/`lambda`/`for` keyword),
            colon = first ':' child, suite = children[-1].start_pos, stop = node.end_pos;
+           stmt = node.parent.start_pos when the parent is an async_stmt / async_funcdef (the `async`
+           keyword), node.start_pos otherwise: what the indentation loop of get_context compares with;
            pscope = parent_scope(node) (for comprehensions parent_scope(node.parent), see create_context)
 `table_from_parso(src)` recomputes the same tables from a parso tree (cross-check of this printer
 and the source of tables for corpus files).
@@ -52,7 +54,7 @@ class _P:
     def __init__(self):
         self.lines = ['']
         self.leaves = []
-        self.scopes = [[KINDS['module'], 0, (1, 0), (1, 0), (1, 0), None, -1, '']]
+        self.scopes = [[KINDS['module'], 0, (1, 0), (1, 0), (1, 0), None, -1, '', (1, 0)]]
 
     def pos(self):
         return (len(self.lines), len(self.lines[-1]))
@@ -89,7 +91,7 @@ class _P:
         return (l[2], l[3])
 
     def new_scope(self, kind, pscope, name=''):
-        self.scopes.append([KINDS[kind], pscope, None, None, None, None, -1, name])
+        self.scopes.append([KINDS[kind], pscope, None, None, None, None, -1, name, None])
         return len(self.scopes) - 1
 
 
@@ -120,7 +122,7 @@ def _expr(p, e, E, sp=False):
         sc = p.scopes[s]
         if sp:
             p.ws(' ')
-        sc[2] = p.pos()
+        sc[2] = sc[8] = p.pos()
         p.tok('lambda', s)
         for i, (n, d) in enumerate(e['params']):
             if i:
@@ -151,7 +153,7 @@ def _expr(p, e, E, sp=False):
         else:
             _expr(p, e['elt'], s)
         p.ws(' ')
-        sc[2] = p.pos()
+        sc[2] = sc[8] = p.pos()
         sc[3] = sc[2]
         p.tok('for', s)
         p.tok(e['var'], s, 'bind', sp=True)
@@ -230,12 +232,14 @@ def _stmt(p, st, S, ind):
             p.newline(S)
         if st['decos']:
             p.ws(pad)
+        stmt = p.pos()
         if st.get('async'):
             p.tok('async', S)
             p.ws(' ')
         s = p.new_scope(st['kind'], S, st['name'])
         sc = p.scopes[s]
         sc[2] = p.pos()
+        sc[8] = stmt
         if st['kind'] == 'function':
             p.tok('def', s)
             sc[6] = p.tok(st['name'], s, 'def', arg=s, sp=True)
@@ -298,7 +302,7 @@ def render(prog):
     p.leaves.append([end[0], end[1], end[0], end[1], 0, 0, ROLE['endmarker'], 0, ''])
     p.scopes[0][5] = end
     src = '\n'.join(p.lines)
-    scopes = [[s[0], s[1], list(s[2]), list(s[3]), list(s[4]), list(s[5]), s[6], s[7]] for s in p.scopes]
+    scopes = [[s[0], s[1], list(s[2]), list(s[3]), list(s[4]), list(s[5]), s[6], s[7], list(s[8])] for s in p.scopes]
     return src, {'leaves': p.leaves, 'scopes': scopes}
 
 
@@ -359,7 +363,7 @@ def table_from_parso(src, grammar=None):
     for n in scopes:
         kind = kind_of.get(n.type, KINDS['comp'])
         if kind == 0:
-            out_scopes.append([0, 0, [1, 0], [1, 0], [1, 0], list(n.end_pos), -1, ''])
+            out_scopes.append([0, 0, [1, 0], [1, 0], [1, 0], list(n.end_pos), -1, '', [1, 0]])
             continue
         if kind == KINDS['comp']:
             ps = scope_ids[id(parent_scope(n.parent))]
@@ -372,8 +376,9 @@ def table_from_parso(src, grammar=None):
                 name_leaf, name = -1, '<lambda>'
             else:
                 name_leaf, name = leaf_ids[id(n.name)], n.name.value
+        stmt = n.parent if n.parent.type in ('async_stmt', 'async_funcdef') else n
         out_scopes.append([kind, ps, list(n.start_pos), list(colon), list(n.children[-1].start_pos),
-                           list(n.end_pos), name_leaf, name])
+                           list(n.end_pos), name_leaf, name, list(stmt.start_pos)])
     out_leaves = []
     for lf in leaves:
         ps = scope_ids[id(parent_scope(lf))]
